@@ -559,9 +559,13 @@ theorem escaped_dquote_witness :
     helperString (cps "a\\\"b") = cps "\"a\\\\\"b\"" ∧ cssStringDenote (cps "\"a\\\\\"b\"") = none ∧
     storedDenote (cps "a\\\"b") = cps "a\"b" := by decide +kernel
 
-/-- `C18-url-trailing-backslash`: the stored URL `a \\` (content `a \`) is written as an unterminated string -/
+/-- the former witness of `C18-url-trailing-backslash` (fixed by 61e31a0): the stored URL `a \\` (content `a \`, an
+escaped backslash at the end) is written with its two backslashes and the closing quote, and reads back; a single
+(unescaped) trailing backslash still gets its partner -/
 theorem url_trailing_backslash_witness :
-    helperUri (cps "a \\\\") = cps "url(\"a \\\\\\\")" ∧ writtenUrlDenote (cps "url(\"a \\\\\\\")") = none := by
+    helperUri (cps "a \\\\") = cps "url(\"a \\\\\")" ∧
+    writtenUrlDenote (cps "url(\"a \\\\\")") = some (cps "a \\") ∧
+    helperString (cps "a\\") = cps "\"a\\\\\"" := by
   decide +kernel
 
 /-- the former witness of `C18-url-control-char` (fixed): a URL with U+007F is now written quoted and reads back -/
